@@ -449,6 +449,8 @@ class FmtStr:
         if sep is None:
             sep = r"\s+"
         elif not regex:
+            if sep == "":
+                raise ValueError("empty separator")
             sep = re.escape(sep)
         matches = list(re.finditer(sep, s))
         return [
